@@ -3,7 +3,7 @@
 # /verif under /root/scratch/seedw, so that /repo itself stays untouched (usable while something else
 # is reading /repo).   seedcopy.sh <seeded|benign> <name> <property>...
 kind=$1; name=$2; shift 2
-W=/root/scratch/seedw
+W=${SEEDW:-/root/scratch/seedw}
 mkdir -p $W
 rsync -a --delete --exclude target --exclude .git /repo/ $W/repo/
 rsync -a --exclude work --exclude harness/target --exclude harness/target-nohooks --exclude .git --exclude seeded --exclude benign --exclude evidence /verif/ $W/verif/
